@@ -42,12 +42,14 @@ def recipe_to_json(nodes):
     out = []
     for n in nodes:
         m = {k: v for k, v in n.items() if k not in ("color", "alpha", "mask", "children")}
+        mk = n.get("mask")
         if n["t"] == "group":
             m["children"] = recipe_to_json(n["children"])
+            if mk:
+                m["mask"] = dict(mk, data=np.asarray(mk["data"]).tolist())
         else:
             m["color"] = np.asarray(n["color"]).tolist()
             m["alpha"] = None if n.get("alpha") is None else np.asarray(n["alpha"]).tolist()
-            mk = n.get("mask")
             m["mask"] = None if not mk else dict(mk, data=np.asarray(mk["data"]).tolist())
         out.append(m)
     return out
@@ -63,10 +65,10 @@ def recipe_from_json(nodes):
             l, t, r, b = n["rect"]
             m["color"] = np.asarray(n["color"], dtype=np.uint8).reshape(b - t, r - l, -1)
             m["alpha"] = None if n.get("alpha") is None else np.asarray(n["alpha"], dtype=np.uint8).reshape(b - t, r - l)
-            mk = n.get("mask")
-            if mk:
-                ml, mt, mr, mb = mk["rect"]
-                m["mask"] = dict(mk, data=np.asarray(mk["data"], dtype=np.uint8).reshape(mb - mt, mr - ml))
+        mk = n.get("mask")
+        if mk:
+            ml, mt, mr, mb = mk["rect"]
+            m["mask"] = dict(mk, data=np.asarray(mk["data"], dtype=np.uint8).reshape(mb - mt, mr - ml))
         out.append(m)
     return out
 
@@ -740,6 +742,9 @@ def features(doc):
             if not n.get("visible", True):
                 f.add("hidden")
             b = n.get("blend", "NORMAL")
+            mk = n.get("mask")
+            if mk and not mk.get("disabled"):
+                f.add("mask")
             if n["t"] == "group":
                 f.add("group-passthrough" if b == "PASS_THROUGH" else "group-isolated")
                 if b not in ("PASS_THROUGH", "NORMAL"):
@@ -748,9 +753,6 @@ def features(doc):
             else:
                 if b != "NORMAL":
                     f.add("blend")
-                mk = n.get("mask")
-                if mk and not mk.get("disabled"):
-                    f.add("mask")
                 if n.get("alpha") is None:
                     f.add("no-alpha-channel")
                 elif (np.asarray(n["alpha"]) < 255).any():
@@ -839,8 +841,8 @@ def shrink_doc(doc, fails, budget=250):
             if n0.get("clip"): cands.append(("clip", False))
             if n0.get("blend") not in ("NORMAL", "PASS_THROUGH", None): cands.append(("blend", "NORMAL"))
             if n0["t"] == "group" and n0.get("blend") == "NORMAL": cands.append(("blend", "PASS_THROUGH"))
+            if n0.get("mask"): cands.append(("mask", None))
             if n0["t"] == "pixel":
-                if n0.get("mask"): cands.append(("mask", None))
                 if n0.get("alpha") is not None and (np.asarray(n0["alpha"]) < 255).any():
                     cands.append(("alpha", np.full(np.asarray(n0["alpha"]).shape, 255, np.uint8)))
                 W, H = doc["size"]
